@@ -353,3 +353,88 @@ func ruleFilterPageIndex(c *eng.Ctx) {
 		}
 	}
 }
+
+// R4.6 [C04, C01]
+func ruleXRefStreamCursor(c *eng.Ctx) {
+	const R = "R4.6-XREF-STREAM-CURSOR"
+	c.Rule(R, "in parseXRefStream the position at which an entry record is read depends on a value that accumulates across ALL /Index subsections (a variable carried by the outer subsection loop whose next value depends on its previous one): a position computed from the entry number inside the current subsection alone re-reads the first subsection's records for every later subsection", 1, 0)
+	fn := c.P.Func("core.(*XRefParser).parseXRefStream")
+	if fn == nil {
+		c.Undec(R, "core.(*XRefParser).parseXRefStream", token.NoPos, "anchor not found")
+		return
+	}
+	calls := eng.CallsNamed(fn, false, "core.(*XRefParser).parseXRefStreamEntry")
+	if len(calls) == 0 {
+		c.Undec(R, "core.(*XRefParser).parseXRefStream#entry-read", fn.Pos(), "no call of parseXRefStreamEntry found")
+		return
+	}
+	isHeader := func(b *ssa.BasicBlock) bool {
+		for _, p := range b.Preds {
+			if b.Dominates(p) {
+				return true
+			}
+		}
+		return false
+	}
+	for i, ci := range calls {
+		key := fmt.Sprintf("core.(*XRefParser).parseXRefStream#entry-read%d", i+1)
+		// outermost loop header around the call
+		var outer *ssa.BasicBlock
+		for b := ci.Block(); b != nil; b = b.Idom() {
+			if isHeader(b) && eng.ReachableBlocks([]*ssa.BasicBlock{ci.Block()}, nil)[b] {
+				outer = b
+			}
+		}
+		if outer == nil {
+			c.Viol(R, key, ci.Pos(), "the entry read is not inside the loop over /Index subsections")
+			continue
+		}
+		var pos ssa.Value
+		if sl, ok := ci.Common().Args[1].(*ssa.Slice); ok {
+			pos = sl.Low
+		}
+		ok := false
+		// arithmetic dependence only (sums, products, conversions, phis): a value that merely selects
+		// which table element is loaded (the subsection index) is not a cursor
+		arith := func(v ssa.Value) map[ssa.Value]bool {
+			seen := map[ssa.Value]bool{}
+			var walk func(ssa.Value)
+			walk = func(x ssa.Value) {
+				if x == nil || seen[x] {
+					return
+				}
+				seen[x] = true
+				switch y := x.(type) {
+				case *ssa.BinOp:
+					walk(y.X)
+					walk(y.Y)
+				case *ssa.Convert:
+					walk(y.X)
+				case *ssa.Phi:
+					for _, e := range y.Edges {
+						walk(e)
+					}
+				}
+			}
+			walk(v)
+			return seen
+		}
+		if pos != nil {
+			for v := range arith(pos) {
+				ph, isPhi := v.(*ssa.Phi)
+				if !isPhi || ph.Block() != outer {
+					continue
+				}
+				for k, e := range ph.Edges {
+					if !outer.Dominates(outer.Preds[k]) {
+						continue // entry edge
+					}
+					if arith(e)[ssa.Value(ph)] {
+						ok = true // the next value depends on the previous one
+					}
+				}
+			}
+		}
+		c.Check(ok, R, key, ci.Pos(), "read position accumulates over all subsections", "the record position does not accumulate across /Index subsections: entries of the second and later subsections are read from the wrong records")
+	}
+}
